@@ -48,9 +48,43 @@ def _flip(op):
     return {"<": ">", "<=": ">=", ">": "<", ">=": "<=", "==": "==", "!=": "!="}[op]
 
 
+def _expand_named_tests(fv, guards):
+    """Hoisted tests (`let length_ok = mask <= roa.max_length; let origin_ok = a != 0 && a == asn;`) stand for what they compute."""
+    from ..util import var_def_expr, bool_true_requires
+    out, seen = list(guards), set()
+    work = list(guards)
+    while work:
+        g, labels, how = work.pop()
+        if not (isinstance(g, tuple) and g and g[0] == "var" and set(labels) in ({"true"}, {"false"})) or (g[1], tuple(labels)) in seen:
+            continue
+        seen.add((g[1], tuple(labels)))
+        d = var_def_expr(fv, g[1], depth=12)
+        if d is not None and d != g:
+            out.append((d, labels, how))
+            work.append((d, labels, how))
+            continue
+        if set(labels) == {"true"}:
+            # `a && b`: on the true side the last operand was evaluated (and was true) under the earlier ones
+            for l_, n_ in fv.local_name.items():
+                if n_ != g[1]:
+                    continue
+                for bi_, si_, st_ in fv.defs().get(l_, []):
+                    if bi_ not in fv.live or si_ == "t":
+                        continue
+                    rv_ = st_["rv"]
+                    if rv_["r"] == "use" and "k" in rv_["o"]:
+                        continue
+                    e_ = Renderer(fv, depth=12).rvalue(rv_, 12)
+                    out.append((e_, {"true"}, how))
+            for x in bool_true_requires(fv, g[1]):
+                out.append(x)
+                work.append(x)
+    return out
+
+
 def rels_for(fv, bi):
     out = []
-    for g, labels, how in flat_guards(fv, bi):
+    for g, labels, how in _expand_named_tests(fv, flat_guards(fv, bi)):
         r = cmp_rel(g, labels)
         if r:
             a, op, b = r
